@@ -141,7 +141,7 @@ def plan(tier, seed):
     pl.cases = [framed(c, c.key) for c in base] + wrapper_cases()
     pl.canaries = [canary()]
     pl.finite = [("C04-F/grammar-facts", parsing.grammar_facts)]
-    n = 2 if tier == "quick" else 3
+    n = 2 if tier == "quick" else 4
 
     def sequences():
         return bounded.run_native("c04_sequences", {"max_calls": n, "seed": seed,
